@@ -43,7 +43,7 @@ impl DespawnAccessTracker
             debug_assert!(false);
             return;
         };
-        let (_, source, handle) = self.prepared.swap_remove(pos);
+        let (_, source, handle) = self.prepared.remove(pos);
 
         self.currently_reacting = true;
         self.reaction_source = source;
